@@ -25,6 +25,19 @@ ix.searcher()/refresh() (between the TOC read and the opening of the segment fil
                         atomic section (no other thread runs in between)
 The model of generation g is the fold, in generation order, of the transactions whose TOC rename was observed by the
 tap (registered synchronously in the committing thread just before the rename).
+LINE-level schedules (quick: every 4th, thorough: every 3rd schedule): besides the storage events, sys.monitoring LINE
+events inside the code a reader runs when it opens / refreshes (FileIndex.reader/_reader/latest_generation/_read_toc,
+TOC.read/_latest_generation, SegmentReader/MultiReader/EmptyReader/Searcher constructors, Searcher.refresh/up_to_date,
+the open/list/exists/length methods of FileStorage, RamStorage, OverlayStorage, CompoundStorage, the W3 codec's reader
+constructors; see reader_side_codes()) are scheduling points for every thread, with a per-schedule probability, and a
+reader inside ix.searcher() / refresh() is parked for a transaction-long pause at 0..2 chosen LINE events of that call
+(chosen uniformly over the call's line events, or uniformly over its functions and then over that function's line
+events), so that complete commits + clean_files land between two LINES of a reader opening.  In these schedules half of
+the up_to_date() evaluations run with scheduling points inside the call (judged by the bracket rule, see ASSUMPTIONS).
+Writer histories also contain: un-delete (writer.delete_document(docnum, delete=False)), same-count swaps (un-delete one
+document and delete another of the same segment), deletions in the oldest segment while a new segment is appended, and -
+in schedules whose index handles all come from Storage.open_index() (no shared Schema object) - add_field() (+ documents
+using the new field) and remove_field().
 Process variant (thorough tier, a few quick cases): the writer runs in a subprocess (vf/workers/c03_writer.py, scripted
 transactions, seeded delays at storage events) while the parent opens / holds / refreshes readers.
 """
@@ -43,11 +56,21 @@ LEVEL = "exploration"
 RULE = ("a case is one schedule: storage {FileStorage with mmap, FileStorage(supports_mmap=False), RamStorage} x segment "
         "layout {compound, loose, mixed} x a prelude of 1..4 segments x 1..2 writer threads with 2..4 transactions each "
         "drawn from {append (merge=False), default merging commit, optimize, delete-only, update, CLEAR, empty commit, "
-        "cancel} x 1..3 reader threads looping open / (probe) / dwell {0,5,50,300,800,2500 steps} / probe / up_to_date / "
+        "cancel; 30 %: deletion-set changes by document number, all merge=False: un-delete, same-count swap (un-delete "
+        "one + delete another document of one segment), swap + appended segment, deletions in the oldest segment + "
+        "appended segment; in the 35 % of the schedules with schema transactions (every index handle from "
+        "Storage.open_index(), no Schema object shared) 30 %: add_field(x<n>, TEXT(stored)) + 1..2 documents using it "
+        "(merge=False or default merge) / remove_field(x<n>)} x 1..3 reader threads looping open / (probe) / dwell {0,5,50,300,800,2500 steps} / probe / up_to_date / "
         "refresh-or-close-or-keep until all writers are done (a kept or self-refreshed searcher is probed again: every part "
         "it has read before is re-read after further commits); documents carry a sortable NUMERIC n and a column-only "
         "COLUMN field c = n % 5, and each full probe reads both columns through has_column / column_reader (index and "
-        "leaf readers), sorts by n, and sorts + groups by c; scheduler policy (uniform random with stickiness / PCT / round "
+        "leaf readers), sorts by n, and sorts + groups by c, and further reads iter_docs / all_stored_fields, postings "
+        "with positions, vector_as, lexicon APIs, term_info / doc_frequency / frequency / field_length / "
+        "most_frequent_terms, min/max/avg field length, Searcher.document / document_number / documents, limited and "
+        "reversed sorted searches, key_terms / more_like, and schema names + Term search + lexicon on every added "
+        "field; every 4th (thorough: 3rd) schedule additionally has LINE-level scheduling points in the reader-side "
+        "opening code (per-line yield probability 0.02..0.6 drawn per schedule; 0..2 transaction-long parks at chosen "
+        "LINE events of each ix.searcher() / refresh() call); scheduler policy (uniform random with stickiness / PCT / round "
         "robin) drawn per schedule. Population A = all segments compound (any disagreement is a violation); population "
         "B = loose or mixed layouts (two-level oracle for the listed lazy-file finding). A case is non-trivial when a "
         "commit completed while a reader was held; distinct = distinct (storage, layout, writers, readers, transaction "
@@ -55,7 +78,23 @@ RULE = ("a case is one schedule: storage {FileStorage with mmap, FileStorage(sup
         "sequence of the schedule) are counted separately.")
 ASSUMPTIONS = [
     "schedule space is sampled; scheduling points are storage events (reads of already open files and mmaps are not "
-    "events, so a probe of opened parts is atomic with respect to writers, as it is for the file system)",
+    "events, so a probe of opened parts is atomic with respect to writers, as it is for the file system); in the "
+    "LINE-level schedules additionally the LINE events of the reader-side opening code listed in reader_side_codes() "
+    "(not the codec's read paths used by probes, not the writer's own code): a thread switch between two such lines is "
+    "what the language allows, even where CPython 3.12 happens not to check for a switch",
+    "LINE-level schedules, half of the up_to_date() evaluations: the call is not atomic; with lo / hi = latest "
+    "generation read atomically just before / after the call, the answer must be False when reader generation < lo, "
+    "True when lo == hi == reader generation (generations only grow), and is not judged otherwise",
+    "un-delete restores the document with the content it had when it was deleted; only documents whose key is not "
+    "live are un-deleted (keys stay unique), identified by their unique stored n",
+    "schema transactions: the model of remove_field() is 'the field is no longer in Searcher.schema / reader.schema and "
+    "stored_fields() / search hits no longer return it' (what a freshly opened reader does: SegmentReader.stored_fields "
+    "filters by the schema); IndexReader.iter_docs() / all_stored_fields() return the raw stored dictionaries even in "
+    "a fresh reader (documented: removing a field 'may or may not actually remove existing data'), so they are "
+    "projected on the schema before the comparison; a field name is never re-used; glob fields are not used",
+    "term statistics (term_info, doc_frequency, frequency, field_length, most_frequent_terms, min/max/avg field "
+    "length), the lexicon APIs, key_terms / more_like are compared only between two probes of the same held searcher "
+    "(segments with deletions still count deleted documents; not part of the dict model)",
     "the held-snapshot monitor uses the read API through Searcher/IndexReader only; after Searcher.refresh() the old "
     "searcher is not used any more (documented: refresh may close its resources)",
     "a reader opened while a commit is in flight may report the old or the new generation; it is compared with the "
